@@ -1,2 +1,3 @@
 pub mod net;
 pub mod sw;
+pub mod app;
